@@ -12,7 +12,7 @@ TRUSTED = TRUSTED_BASE
 ASSUMPTIONS = ASSUME_BASE
 EXHAUSTIVE = {"thorough": "for 60 base sequences: every insertion position x every failing-call kind"}
 
-KINDS = ["notallowed", "width_elem", "width_end", "unknown_nonmaster", "rawid", "close_wrong", "close_none", "full_badchild", "full_badsize"]
+KINDS = ["notallowed", "width_elem", "width_end", "unknown_nonmaster", "rawid", "close_wrong", "close_none", "full_badchild", "full_badsize", "full_closes_outer"]
 BAD_RAW_IDS = [0x1, 0x7F, 0x100, 0x3FFF + 0x1, 0x200000 >> 1, 0x4000000000000000, 0xFFFFFFFFFFFFFFFF]
 
 
@@ -64,6 +64,16 @@ def failing_op(rng, sp, kind, chain):
         if ids:
             return None
         return (rng.choice(["d", "u"]), ("e", rng.choice(sp.masters())))
+    if kind == "full_closes_outer":
+        # a Full whose children are Ends: of itself, then of masters opened by earlier calls, then one End too many
+        c = [i for i in allowed if sp.get_type(i) == "M"]
+        if not c:
+            return None
+        tid = rng.choice(c)
+        kids = [("e", tid)] + [("e", i) for i in reversed(ids[-rng.randint(0, len(ids)):] if ids else [])]
+        if rng.random() < 0.7:
+            kids.append(("e", rng.choice(sp.masters())))
+        return (rng.choice(["d", "u", "2"]), ("m", tid, kids))
     if kind in ("full_badchild", "full_badsize"):
         c = [i for i in allowed if sp.get_type(i) == "M"]
         if not c:
@@ -179,9 +189,20 @@ def generate(rng, tier):
     return cases
 
 
+def pos_of(case):
+    if "pos" in case.meta:
+        return case.meta["pos"]
+    a = case.lines[0].split(" ")[2].split(",")
+    b = case.lines[1].split(" ")[2].split(",")
+    k = 0
+    while k < len(a) and a[k] == b[k]:
+        k += 1
+    return k
+
+
 def nontrivial(case, model_out):
     t, _ = w_split(model_out[1])
-    p = case.meta["pos"]
+    p = pos_of(case)
     return t is not None and len(t) > p and t[p].startswith("E:") and not t[p].startswith("E:io")
 
 
@@ -191,7 +212,7 @@ def oracle(case, outs):
     (t0, d0), (t1, d1) = w_split(outs[0]), w_split(outs[1])
     if t0 is None or t1 is None:
         return "malformed: %s" % outs
-    p = case.meta["pos"]
+    p = pos_of(case)
     if len(t1) != len(t0) + 1:
         return "result count: %s vs %s" % (outs[0][:300], outs[1][:300])
     res = t1[p]
@@ -199,9 +220,9 @@ def oracle(case, outs):
         return None   # the inserted call did not fail: not a case of this property
     rest = t1[:p] + t1[p + 1:]
     if d0 != d1:
-        return "a rejected call (%s, %s) changed the output: without %s | with %s   [%s]" % (case.meta["kind"], res, d0.hex()[:200], d1.hex()[:200], case.lines[1][:500])
+        return "a rejected call (%s, %s) changed the output: without %s | with %s   [%s]" % (case.meta.get("kind", "corpus"), res, d0.hex()[:200], d1.hex()[:200], case.lines[1][:500])
     if rest != t0:
-        return "a rejected call (%s, %s) changed later behaviour: without %s | with %s   [%s]" % (case.meta["kind"], res, " ".join(t0), " ".join(t1), case.lines[1][:500])
+        return "a rejected call (%s, %s) changed later behaviour: without %s | with %s   [%s]" % (case.meta.get("kind", "corpus"), res, " ".join(t0), " ".join(t1), case.lines[1][:500])
     # the failing call itself must not have delivered anything
     before = t1[p - 1].rsplit("@", 1)[1] if p > 0 else "0"
     if res.rsplit("@", 1)[1] != before:
